@@ -122,7 +122,7 @@ func (d *dtInfo) genVal(vset, buf, i int) interface{} {
 	case 2:
 		return d.fromInt(int64(1 + (i*7+buf*3)%9))
 	case 3:
-		return d.fromInt(int64((i*5+buf)%5 - 2))
+		return d.fromInt(int64((i*3+buf)%5 - 2))
 	}
 	return d.fromInt(int64(1 + i + 37*buf))
 }
